@@ -5,6 +5,7 @@ package openapi
 // Contracts checked by /verif/goavc (comment-only file, built only with -tags verif).
 
 //@ func MustGenerate
+//@   params meta
 //@   modifies nothing
 
 //@ iface goa.design/goa/v3/expr.DataType.Kind
@@ -14,6 +15,7 @@ package openapi
 // and a length bound lands on the keyword that applies to the kind of value: minLength/maxLength for
 // strings, minItems/maxItems for arrays. (JSON Schema ignores minLength on arrays and objects.)
 //@ func initAttributeValidation
+//@   params s at
 //@   property C14
 //@   requires s != nil && at != nil
 //@   let val = old(at.Validation)
